@@ -3,7 +3,7 @@ import sys
 import time
 
 from engine.prelude import tick, flag, excluded, bits, PART, xh_control
-from sandbox_common import TERMINATIONS, state, fresh, enter
+from sandbox_common import TERMINATIONS, state, fresh, enter, use_real_stream
 import pedal.sandbox.sandbox as SB
 
 _REAL_RUNTIME_ERROR = SB.runtime_error
@@ -39,25 +39,29 @@ def _cleanup(sb, snap):
     time.sleep = snap[1]
 
 
-def restore1(t0: bool, t1: bool, t2: bool, t3: bool, e0: bool, e1: bool, text: str, fault: bool) -> bool:
+def restore1(t0: bool, t1: bool, t2: bool, t3: bool, text: str, fault: bool, close: bool) -> bool:
     """
-    One execution through run / call / evaluate whose (stubbed) program prints `text` and terminates in the way chosen
+    One execution through run / call / evaluate (= partition) whose (stubbed) program prints `text` and terminates in the way chosen
     from the 13-entry menu (normal, Exception subclasses incl. broken __str__/__repr__, SystemExit, RecursionError,
     KeyboardInterrupt, GeneratorExit, a direct BaseException subclass); `fault` makes pedal's own feedback construction
-    raise (for exception classes without a dedicated feedback class). Whether the call returns or raises, the borrowed
+    raise (for exception classes without a dedicated feedback class); `close` makes the program close the stream it
+    was given before it terminates. Whether the call returns or raises, the borrowed
     process state is back and the sandbox's stacks are empty.
 
     pre: len(text) <= 1
     post: _
     """
     tick()
-    term, entry = bits(t0, t1, t2, t3), bits(e0, e1)
+    term, entry = bits(t0, t1, t2, t3), (int(PART) if PART else 0)
     if term >= len(TERMINATIONS) or entry >= 3:
         return True
     if excluded("C05.restore1", term=term, entry=entry, text=text, fault=fault):
         return True
     r, sb = fresh()
-    state["term"], state["text"] = term, text
+    if close:
+        text = "x"
+    use_real_stream(close)
+    state["term"], state["text"], state["close"] = term, text, close
     snap = _snapshot()
     _set_fault(fault)
     try:
@@ -69,7 +73,8 @@ def restore1(t0: bool, t1: bool, t2: bool, t3: bool, e0: bool, e1: bool, text: s
             flag("propagated")
         return _restored(sb, snap)
     finally:
-        state["term"] = 0
+        state["term"], state["close"] = 0, False
+        use_real_stream(False)
         _set_fault(False)
         _cleanup(sb, snap)
 
